@@ -12,7 +12,7 @@ RULE = (
     "no basis code); the interpolation error eps(g) of each grid is measured from eko's basis on the PDF. Oracle: (i) |pred(g)-truth| <= "
     "K_k eps(g) S + 1e-6 S for adequate grids (eps <= 1e-2), K_0=5, K_1=K_2=300; (ii) a drop of eps by >= 10 must not make the error worse (factor 2); the floor "
     "of (i),(ii) includes 5x the code's own contracted quadrature-error estimate; (iii) SV keys of the two finest grids agree within K max(eps) S; (iv) x on a node vs x(1+-1e-9): predictions "
-    "within 3e-6/3e-6/5e-5 S by order plus 5x the code's own contracted quadrature-error estimate. Distinct = (kind, process, scheme, order, x class, relation); non-trivial = truth non-zero and at least two adequate grids."
+    "within 3e-6/3e-6/5e-5 S by order; (v) with TMC 1/3 at x in [0.8,0.95] successive grids agree within K (eps_i+eps_j) S; node tolerances plus 5x the code's own contracted quadrature-error estimate. Distinct = (kind, process, scheme, order, x class, relation); non-trivial = truth non-zero and at least two adequate grids."
 )
 ASSUMPTIONS = ["'adequate grid' is operationalised as measured interpolation error <= 1e-2; coarser grids are not judged",
                "K factors calibrated on the pinned tree (loose by design: the sharp entrywise statement about the same code is C01)"]  # fmt: skip
@@ -28,7 +28,7 @@ def budget(tier):
 
 def floor(tier):
     return dict(min_conclusive=10 if tier == "quick" else 100, min_nontrivial=20 if tier == "quick" else 120,
-                classes=["bound", "monotone", "sv-agree", "node-continuity", "on-node"], probes=["collect_elems", "truth_integrals"], min_compared=80)  # fmt: skip
+                classes=["bound", "monotone", "sv-agree", "node-continuity", "on-node", "tmc-family"], probes=["collect_elems", "truth_integrals"], min_compared=80)  # fmt: skip
 
 
 def cases(tier, rng):
@@ -46,7 +46,17 @@ def cases(tier, rng):
         for lvl in range(4 if tier == "quick" else 5):
             nl = int(base * 1.5**lvl)
             fam.append(dict(n_low=nl, n_mid=max(6, int(nl * 0.8)), deg=int(min(5, 2 + lvl + (1 if rng.random() < 0.3 else 0))), kind=cards.pick(rng, ["mixed", "mixed", "log"])))
-        out.append(dict(id=f"c19-{i}", kind=kind, proc=proc, scheme=scheme, pto=pto, x=float(x), xcls=xcls, Q2=cards.logu(rng, 5.0, 1e3), family=fam,
+        tmc = 0
+        if i % 4 == 1:
+            # target-mass corrected predictions have no kernel-level truth: judged by the agreement between successive grids only;
+            # high x, where the Nachtmann variable sits in the top cells of the grid
+            tmc = int(cards.pick(rng, [1, 3]))
+            xcls = "veryhighx"
+            x = float(rng.uniform(0.8, 0.95))
+            kind = cards.pick(rng, ["F2", "FL", "F3"])
+            proc = "CC" if kind == "F3" else proc
+            pto = min(pto, 1)
+        out.append(dict(id=f"c19-{i}", tmc=tmc, kind=kind, proc=proc, scheme=scheme, pto=pto, x=float(x), xcls=xcls, Q2=cards.logu(rng, 5.0, 1e3), family=fam,
                         heavy=cards.pick(rng, ["total", "light"]), pdf=pdfs.SmoothPDF.random(rng), proj="neutrino" if proc == "CC" else "electron", timeout=900))  # fmt: skip
     return out
 
@@ -65,11 +75,52 @@ def interp_error(interp, nodes, pdf, x):
     return worst
 
 
+def run_tmc_family(case, th):
+    """TMC on: successive adequate grids must agree within K (eps_i + eps_j) S + floor (no kernel-level truth available)."""
+    yad = run.yad()
+    name = f"{case['kind']}_{case['heavy']}"
+    pdf = pdfs.make(case["pdf"])
+    x, Q2 = case["x"], case["Q2"]
+    preds, epss, Ss, Es = [], [], [], []
+    for gs in case["family"]:
+        xg = cards.grid(gs["n_low"], gs["n_mid"], x_min=1e-4, kind=gs["kind"])
+        ob = cards.observables({name: [dict(x=x, Q2=Q2)]}, xgrid=xg, deg=gs["deg"], prDIS=case["proc"], ProjectileDIS=case["proj"])
+        res = yad.run_yadism(th, ob)[name][0]
+        interp = run.interpolator(ob)
+        fmat = np.array([[pdf.f(pid, xj) for xj in xg] for pid in cards.PIDS])
+        preds.append({o: float(np.sum(np.asarray(v[0]) * fmat)) for o, v in res.orders.items()})
+        Ss.append({o: float(np.sum(np.abs(np.asarray(v[0]) * fmat))) for o, v in res.orders.items()})
+        Es.append({o: float(np.sum(np.abs(np.asarray(v[1]) * fmat))) for o, v in res.orders.items()})
+        # the TMC integrals run over [xi,1]: measure the interpolation error there
+        mu = th["MP"] ** 2 / Q2
+        xi = 2 * x / (1 + np.sqrt(1 + 4 * x * x * mu))
+        epss.append(interp_error(interp, xg, pdf, float(xi)))
+    viol, nontrivial, classes = [], set(), {"tmc-family"}
+    compared, margin = 0, 0.0
+    adequate = [i for i, e in enumerate(epss) if e <= 1e-2]
+    for i, j in zip(adequate[:-1], adequate[1:]):
+        for key in preds[j]:
+            S = max(Ss[i].get(key, 0.0), Ss[j].get(key, 0.0))
+            d = abs(preds[i].get(key, 0.0) - preds[j][key])
+            bound = K[min(key[0], 2)] * (epss[i] + epss[j]) * S + FLOOR * S + 5.0 * (Es[i].get(key, 0.0) + Es[j].get(key, 0.0))
+            compared += 1
+            if S > 0:
+                nontrivial.add(f"{case['kind']}|{case['proc']}|{case['scheme']}|tmc{th['TMC']}|{run.key(key)}")
+            if d > bound:
+                viol.append(dict(sig=f"refinement-tmc|{case['kind']}|tmc{th['TMC']}", what=f"{name} TMC={th['TMC']} key {run.key(key)} x={x:.5g} Q2={Q2:.5g}: grids {case['family'][i]} and {case['family'][j]} (interpolation errors {epss[i]:.1e}, {epss[j]:.1e}) predict {preds[i].get(key,0.0):.10g} and {preds[j][key]:.10g}: |diff|/S = {d/max(S,1e-300):.2e} > {bound/max(S,1e-300):.2e}"))
+                break
+            margin = max(margin, d / max(bound, 1e-300))
+    sample = dict(obs=name, TMC=th["TMC"], x=x, Q2=Q2, eps=["%.1e" % e for e in epss], lo_predictions=[p_.get((0, 0, 0, 0)) for p_ in preds])
+    return dict(violations=viol, compared=compared, nontrivial=sorted(nontrivial), classes=sorted(classes), margin=margin, probes=dict(collect_elems=1, truth_integrals=1), sample=sample)
+
+
 def run_case(case):
     yad = run.yad()
     from yadism import coefficient_functions as cf
 
-    th = cards.theory(PTO=case["pto"], FNS=case["scheme"], NfFF=3, RenScaleVar=True, FactScaleVar=True)
+    th = cards.theory(PTO=case["pto"], FNS=case["scheme"], NfFF=3, RenScaleVar=True, FactScaleVar=True, TMC=case.get("tmc", 0), MP=0.938)
+    if case.get("tmc"):
+        return run_tmc_family(case, th)
     name = f"{case['kind']}_{case['heavy']}"
     pdf = pdfs.make(case["pdf"])
     x, Q2 = case["x"], case["Q2"]
